@@ -7,7 +7,7 @@
 //! exit 0: property held on everything explored; 1: violation (VIOLATION line printed);
 //! 2: harness error.
 
-use seasim::exec::Stop;
+use seasim::exec::{Stop, Violation};
 use seasim::model::Prop;
 use seasim::runner::*;
 use std::collections::BTreeMap;
@@ -126,6 +126,115 @@ fn cmd_replay(args: &[String]) -> i32 {
     }
 }
 
+/// what gets reported for a violating run: the replay file and the lines describing it
+struct Artifact {
+    property: String,
+    path: String,
+    chunk: bool,
+    first: u64,
+    n: u64,
+    lines: Vec<String>,
+    json: serde_json::Value,
+}
+
+#[allow(clippy::too_many_arguments)]
+fn materialise(prop_s: &str, seed: u64, first_run: u64, replay_dir: &str, i: u64, res: &RunResult, v: &Violation, known: &[String]) -> Artifact {
+    let _ = prop_s;
+    // re-execute the explicit steps on a fresh thread (as a replay in a fresh process
+    // would) and minimise there
+    let isolated = std::thread::scope(|sc| {
+        std::thread::Builder::new()
+            .stack_size(16 << 20)
+            .spawn_scoped(sc, || {
+                let (stop, _, _) = execute(&res.cfg, &res.steps, known);
+                if same_violation(&stop, v) {
+                    Some(minimise(&res.cfg, &res.steps, v, known))
+                } else {
+                    None
+                }
+            })
+            .expect("HARNESS: spawn")
+            .join()
+            .unwrap_or(None)
+    });
+    let dir = format!("{}/{}", replay_dir, v.property);
+    std::fs::create_dir_all(&dir).ok();
+    let Some((steps, v2)) = isolated else {
+        // the run only fails after the runs that preceded it on its thread: the tree under
+        // test keeps per-thread state. Replay = the chunk prefix, single-threaded.
+        let first = ((i / CHUNK) * CHUNK).max(first_run);
+        let path = format!("{}/chunk-{}-{}.json", dir, seed, i);
+        let j = serde_json::json!({"property": v.property, "mode": "chunk", "check": v.check, "seed": seed,
+            "first_run": first, "runs": i - first + 1, "violation": v,
+            "what": "run fails only after the preceding runs of its chunk executed on the same thread (per-thread state in the tree under test); replay re-runs the chunk prefix on one thread"});
+        std::fs::write(&path, serde_json::to_string_pretty(&j).unwrap()).ok();
+        return Artifact {
+            property: v.property.clone(),
+            path: path.clone(),
+            chunk: true,
+            first,
+            n: i - first + 1,
+            lines: vec![format!("violation in run {} (seed {}): check {} — {} [only after runs {}..{} on the same thread]", i, seed, v.check, v.detail, first, i)],
+            json: serde_json::json!({"run": i, "check": v.check, "detail": v.detail, "replay": path}),
+        };
+    };
+    let tr = Trace {
+        property: v2.property.clone(),
+        check: v2.check.clone(),
+        mode: "coop".into(),
+        seed,
+        run: i,
+        cfg: res.cfg.clone(),
+        original_steps: res.steps.len(),
+        steps,
+        violation: v2.clone(),
+        minimised: true,
+    };
+    let path = format!("{}/{}-{}.json", dir, seed, i);
+    std::fs::write(&path, serde_json::to_string_pretty(&tr).unwrap()).ok();
+    Artifact {
+        property: v2.property.clone(),
+        path: path.clone(),
+        chunk: false,
+        first: 0,
+        n: 0,
+        lines: vec![
+            format!("violation in run {} (seed {}): check {} — {}", i, seed, v2.check, v2.detail),
+            format!("minimised from {} to {} steps; replay file {}", res.steps.len(), tr.steps.len(), path),
+        ],
+        json: serde_json::json!({"run": i, "check": v2.check, "detail": v2.detail, "replay": path, "steps": tr.steps.len()}),
+    }
+}
+
+/// does the replay file reproduce a violation of the same property in a fresh process?
+fn confirm_in_fresh_process(art: &Artifact, prop_s: &str, seed: u64, known_path: Option<String>) -> bool {
+    let Ok(exe) = std::env::current_exe() else { return true };
+    let mut c = std::process::Command::new(exe);
+    if art.chunk {
+        let scratch = format!("{}.confirm", art.path);
+        c.args(["run", "--prop", prop_s, "--seed", &seed.to_string(), "--first-run", &art.first.to_string(), "--runs", &art.n.to_string(), "--threads", "1", "--no-confirm", "--replay-dir", &scratch]);
+        if let Some(k) = &known_path {
+            c.args(["--known", k]);
+        }
+        let st = c.stdout(std::process::Stdio::null()).stderr(std::process::Stdio::null()).status();
+        std::fs::remove_dir_all(&scratch).ok();
+        match st {
+            Ok(s) => s.code() == Some(1),
+            Err(_) => true,
+        }
+    } else {
+        c.args(["replay", &art.path]);
+        if let Some(k) = &known_path {
+            c.args(["--known", k]);
+        }
+        match c.stdout(std::process::Stdio::null()).stderr(std::process::Stdio::null()).status() {
+            // a crash of the replay is not "does not reproduce": keep the report
+            Ok(s) => s.code() != Some(0),
+            Err(_) => true,
+        }
+    }
+}
+
 fn cmd_run(args: &[String]) -> i32 {
     let t0 = Instant::now();
     let prop_s = arg(args, "--prop").unwrap_or_else(|| "C15".into());
@@ -154,6 +263,9 @@ fn cmd_run(args: &[String]) -> i32 {
     // properties do not speak about callers whose own code blows up. Otherwise the batch resumes
     // behind that run.
     let mut fault_induced: Vec<serde_json::Value> = Vec::new();
+    let mut not_replayable: Vec<serde_json::Value> = Vec::new();
+    let mut confirmed: Option<Artifact> = None;
+    let no_confirm = args.iter().any(|a| a == "--no-confirm");
     loop {
         let Some((i, res)) = &out.first_violation else { break };
         let Some(Stop::Violation(v)) = &res.stop else { break };
@@ -173,14 +285,30 @@ fn cmd_run(args: &[String]) -> i32 {
             })
         };
         if survives {
-            break;
+            if no_confirm {
+                break;
+            }
+            // The replay file must reproduce the violation in a fresh process. If it does not,
+            // the run depends on state that the tree under test keeps across runs and worker
+            // threads (a process-global flag, a cache shared between threads …): rendering is
+            // then not a function of the statement — not a matter of this property — and there
+            // is nothing replayable to report. The batch resumes behind that run.
+            let art = materialise(&prop_s, seed, first_run, &replay_dir, *i, res, v, &known);
+            if confirm_in_fresh_process(&art, &prop_s, seed, arg(args, "--known")) {
+                confirmed = Some(art);
+                break;
+            }
+            std::fs::remove_file(&art.path).ok();
+            println!("note: run {} (check {}) does not reproduce from its replay file in a fresh process: it depends on state kept across runs / worker threads by the tree under test; not a violation of {} — resuming behind it", i, v.check, prop_s);
+            not_replayable.push(serde_json::json!({"run": i, "check": v.check}));
+        } else {
+            println!("note: run {} diverges only under an injected fault (check {}); not a violation of {} — resuming behind it", i, v.check, prop_s);
+            fault_induced.push(serde_json::json!({"run": i, "check": v.check}));
         }
-        println!("note: run {} diverges only under an injected fault (check {}); not a violation of {} — resuming behind it", i, v.check, prop_s);
-        fault_induced.push(serde_json::json!({"run": i, "check": v.check}));
         let next_first = *i + 1;
         let done_runs = out.runs;
         let end = first_run + runs;
-        if next_first >= end || fault_induced.len() >= 20 {
+        if next_first >= end || fault_induced.len() + not_replayable.len() >= 20 {
             out.first_violation = None;
             break;
         }
@@ -208,67 +336,23 @@ fn cmd_run(args: &[String]) -> i32 {
     let mut violation_json = serde_json::Value::Null;
     if let Some((i, res)) = &out.first_violation {
         if let Some(Stop::Violation(v)) = &res.stop {
-            // re-execute the explicit steps on a fresh thread (as a replay in a fresh process
-            // would) and minimise there
-            let isolated = std::thread::scope(|sc| {
-                std::thread::Builder::new()
-                    .stack_size(16 << 20)
-                    .spawn_scoped(sc, || {
-                        let (stop, _, _) = execute(&res.cfg, &res.steps, &known);
-                        if same_violation(&stop, v) {
-                            Some(minimise(&res.cfg, &res.steps, v, &known))
-                        } else {
-                            None
-                        }
-                    })
-                    .expect("HARNESS: spawn")
-                    .join()
-                    .unwrap_or(None)
-            });
-            let dir = format!("{}/{}", replay_dir, v.property);
-            std::fs::create_dir_all(&dir).ok();
-            let Some((steps, v2)) = isolated else {
-                // the run only fails after the runs that preceded it on its thread: the tree under
-                // test keeps per-thread state. Replay = the chunk prefix, single-threaded.
-                let first = ((*i / CHUNK) * CHUNK).max(first_run);
-                let path = format!("{}/chunk-{}-{}.json", dir, seed, i);
-                let j = serde_json::json!({"property": v.property, "mode": "chunk", "check": v.check, "seed": seed,
-                    "first_run": first, "runs": *i - first + 1, "violation": v,
-                    "what": "run fails only after the preceding runs of its chunk executed on the same thread (per-thread state in the tree under test); replay re-runs the chunk prefix on one thread"});
-                std::fs::write(&path, serde_json::to_string_pretty(&j).unwrap()).ok();
-                println!("violation in run {} (seed {}): check {} — {} [only after runs {}..{} on the same thread]", i, seed, v.check, v.detail, first, i);
-                println!("VIOLATION property={} replay={}", v.property, path);
-                std::process::exit(finish_evidence(args, &prop_s, &tier, seed, runs, threads, &out, t0.elapsed().as_secs_f64(), 1,
-                    serde_json::json!({"run": i, "check": v.check, "detail": v.detail, "replay": path})));
+            let art = match confirmed.take() {
+                Some(a) => a,
+                None => materialise(&prop_s, seed, first_run, &replay_dir, *i, res, v, &known),
             };
-            let tr = Trace {
-                property: v2.property.clone(),
-                check: v2.check.clone(),
-                mode: "coop".into(),
-                seed,
-                run: *i,
-                cfg: res.cfg.clone(),
-                original_steps: res.steps.len(),
-                steps,
-                violation: v2.clone(),
-                minimised: true,
-            };
-            let path = format!("{}/{}-{}.json", dir, seed, i);
-            std::fs::write(&path, serde_json::to_string_pretty(&tr).unwrap()).ok();
-            println!(
-                "violation in run {} (seed {}): check {} — {}",
-                i, seed, v2.check, v2.detail
-            );
-            println!(
-                "minimised from {} to {} steps; replay file {}",
-                res.steps.len(),
-                tr.steps.len(),
-                path
-            );
-            println!("VIOLATION property={} replay={}", v2.property, path);
-            violation_json = serde_json::json!({"run": i, "check": v2.check, "detail": v2.detail, "replay": path, "steps": tr.steps.len()});
+            for l in &art.lines {
+                println!("{}", l);
+            }
+            println!("VIOLATION property={} replay={}", art.property, art.path);
+            violation_json = art.json.clone();
             exit = 1;
+            if art.chunk {
+                std::process::exit(finish_evidence(args, &prop_s, &tier, seed, runs, threads, &out, t0.elapsed().as_secs_f64(), 1, violation_json));
+            }
         }
+    }
+    if !not_replayable.is_empty() {
+        println!("note: {} violating run(s) were not replayable in a fresh process and are not reported (state kept across runs / threads by the tree under test)", not_replayable.len());
     }
     if !out.harness_errors.is_empty() && exit == 0 {
         let (i, m) = &out.harness_errors[0];
